@@ -1,6 +1,9 @@
-"""C12 — judged on recorded runs of the real mediator by TraceEcmc.tla (checks/runlevel.py)."""
-from checks import runlevel
+"""C12 — D+R: Motion.tla (bookkeeping of the event handlers, checks/motion.py);  T: recorded runs judged by TraceEcmc.tla."""
+from checks import motion, runlevel
+from harness.build import Scratch
 
 
 def run(chk):
-    runlevel.run_for(chk, "C12")
+    with Scratch() as sc:
+        motion.run(chk, sc)
+        runlevel.run_for(chk, "C12", sc)
